@@ -369,6 +369,8 @@ def build_request(ex, meta):
             r["slice_until"] = o["slice_until"].replace("~", " ")
         if "slice_tail" in o:
             r["slice_tail"] = o["slice_tail"].replace("~", " ")
+    if o.get("slice_opt_return") == "1":
+        r["slice_opt_return"] = True
     if "slice_from" in o or "slice_to" in o:
         r["slice"] = {"from": o.get("slice_from", "").replace("~", " ") or None,
                       "to": o.get("slice_to", "").replace("~", " ") or None,
